@@ -152,6 +152,7 @@ def main():
     jobs = int(sys.argv[sys.argv.index('--jobs') + 1]) if '--jobs' in sys.argv else 5
     only = re.compile(sys.argv[sys.argv.index('--only') + 1]) if '--only' in sys.argv else None
     outp = sys.argv[sys.argv.index('--out') + 1] if '--out' in sys.argv else '/tmp/mutants.jsonl'
+    force = sys.argv[sys.argv.index('--props') + 1].split(',') if '--props' in sys.argv else None
     todo = []
     for file, rules in TARGETS.items():
         src = open(os.path.join(REPO, file)).read()
@@ -164,6 +165,8 @@ def main():
                     props += [p for p in ps if p not in props]
             if not props or (only and not only.search(file + ':' + qual)):
                 continue
+            if force:
+                props = force
             ms = mutants_of(fnode)
             step = max(1, len(ms) // per)
             for k, (what, node, text) in enumerate(ms[::step][:per]):
